@@ -45,7 +45,7 @@ def consts_for(tier, emit=True, families=None, deviations=()):
         unk_f = ["wrongnet", "bitcoin", "testnet4", "mainnetnet"]
         unk_c = ["liquid", "regtestnet", "signetnet", "net"]
         binfull = "TRUE"
-    fams = families or ["group", "plain", "switch", "fileonly", "portdef", "teoscli", "bin"]
+    fams = families or ["group", "plain", "switch", "fileonly", "portdef", "samevalue", "teoscli", "bin"]
     return {"Deviations": tla_set(deviations), "Families": tla_set(fams), "Contexts": tla_set(ctx),
             "UnknownF": tla_set(unk_f), "UnknownC": tla_set(unk_c), "BinFull": binfull,
             "Emit": "TRUE" if emit else "FALSE"}
@@ -507,7 +507,8 @@ def main(tier, replay=None):
                 "file/CLI, port present/absent x file/CLI, every subset of the 3 credential fields x file/CLI; plain: every "
                 "subset of the 7 value options x file/CLI; switch: absent/false/true in file x absent/given on CLI for the 3 "
                 "switches and the 2 one-shot switches; fileonly: every subset of the 7 file-only options; portdef: an explicit port "
-                "equal to each network's default x each network, in either source; teoscli: teos-cli's two settings present/absent "
+                "equal to each network's default x each network, in either source; samevalue: the documented default given "
+                "explicitly on the command line over a different file value, every non-empty subset of the 7 value options; teoscli: teos-cli's two settings present/absent "
                 "in file x on its command line), each family in "
                 "every context; every case is executed on the real from_file/Opt/patch_with_options/verify (family bin: on "
                 "the real teosd binary) and compared with the expectation printed by TLC. distinct = distinct (file, cli) "
